@@ -378,7 +378,7 @@ PROPERTIES = {
                  "kernel-half fake addresses (>= 2^63)"],
     ),
     "C02": dict(
-        seed_rotation=['x64_api_hist_l2', 'x64_api_hist_l1x2', 'a64_core_boolean', 'x64_api_flavours'],
+        seed_rotation=['x64_api_flavours', 'a64_core_boolean', 'panic_at_p4', 'normal_exit_p5'],
         level_text="Bounded model checking of restoration: (a) one installation from an arbitrary entry state restores byte-for-byte for every address placement (the inductive step: each guard puts back exactly what it overwrote); (b) histories through the public API with K=2 functions and L<=2 (quick) / L<=3 (thorough) installations with symbolic targets and kinds, including the same function several times: while the injector lives the latest installation is in effect, after drop every entry equals its original image; two consecutive lifetimes; L<=3 on the 32-bit ARM variant (same drop logic, cheaper encoding).",
         level_note="Histories longer than 3 installations are outside the bound; the stack argument (guards released newest first, each restoring what it saved) is exercised in full at L=3 but is not proved for unbounded L. Allocator replaced by its contract in history harnesses. Unwinding is modelled as scope exit (C05).",
         quick=["x64_core_redirect", "x64_core_boolean", "x64_api_hist_l1", "arm_api_same2", "arm_api_same3", "panic_at_p2"],
@@ -396,7 +396,7 @@ PROPERTIES = {
         outside=["executable mappings the model does not register (shared libraries)", "histories beyond L=3"],
     ),
     "C12": dict(
-        seed_rotation=['x64_api_hist_l1x2', 'x64_alloc_layout_16m', 'win_core_redirect', 'arm_core_a32'],
+        seed_rotation=['arm_core_t32_aligned', 'x64_alloc_layout_16m', 'win_core_redirect', 'arm_core_a32'],
         level_text="OS-model accounting decided by the solver: every munmap must name a live trampoline with a matching length (else the obligation fails: double free or foreign memory), after each install the live set equals the guards, after drop it equals the set before creation; one install/drop cycle from a clean state ends clean for every placement, histories L<=2/3 and two consecutive lifetimes; 32-bit ARM never maps. Unbounded cycles follow by induction because the crate keeps no state between cycles except the lock (checked by a source scan, reported as an assumption).",
         level_note="The 10^5-cycle figure is covered by the one-cycle induction step, not executed. Kernel-side limits (vm.max_map_count) are outside. The refused-install and exhaustion paths are C05/C11.",
         quick=["x64_core_redirect", "x64_core_boolean", "x64_api_hist_l1", "x64_alloc_any_4k", "arm_api_same2", "a64_core_boolean"],
@@ -406,14 +406,14 @@ PROPERTIES = {
     ),
     "C13": dict(
         seed_rotation=['arm_core_t32_misaligned', 'x64_core_boolean', 'win_core_redirect'],
-        level_text="The complete integer register file, stack pointer and return address are symbolic at the call; the independent interpreter follows entry and trampoline to the fake and the solver decides that every register except the architecture's scratch (x86-64: rax) and the stack pointer are unchanged and no memory is written, for both trampoline forms and every address placement; 32-bit ARM: no argument register, sp or lr is written and (known finding) the scratch register is callee-saved.",
+        level_text="The complete integer register file, stack pointer and return address are symbolic at the call; the independent interpreter follows entry and trampoline to the fake and the solver decides that every register except the architecture's scratch (x86-64: rax) and the stack pointer are unchanged and no memory is written, for both trampoline forms and every address placement; 32-bit ARM: no argument register, callee-saved register, sp or lr is written (only r12).",
         level_note="Vector/floating-point registers are untouched by construction (no instruction in the decoder's table names them; any other instruction is a decode failure). Return path: the fake is entered with the caller's return address in place, so its return goes straight to the caller. AArch64 is covered under C15 once its install harness runs.",
         quick=["x64_core_redirect", "arm_core_a32", "arm_core_t32_aligned"],
         thorough=["x64_core_redirect", "x64_core_boolean", "arm_core_a32", "arm_core_t32_aligned", "arm_core_t32_misaligned", "a64_core_redirect"],
         outside=["execution inside the fake", "vector registers as values (they are shown untouched by the instruction table, not tracked)"],
     ),
     "C04": dict(
-        seed_rotation=['panic_at_p0', 'panic_at_p4', 'normal_exit_p5', 'x64_api_hist_l1x2'],
+        seed_rotation=['panic_at_p0', 'panic_at_p4', 'normal_exit_p5', 'panic_at_p1'],
         level_text="Thread interleavings of std::sync::Mutex cannot be encoded (Kani has no concurrency; the futex path is FFI). What the solver decides on the real code is the lock discipline from which exclusion follows: (G1) from the return of InjectorPP::new()/prevent() until the value is dropped the process-wide lock is held, on every path through a symbolic history; (G2) every simulated code write, including every restoring write during drop, happens while the lock is held (the lock is released strictly after the last restore); (G3) after drop - normal, or while panicking with the mutex left poisoned - the lock is free and both new() and prevent() succeed again.",
         level_note="Trusted: std::sync::Mutex gives mutual exclusion and wakes a waiter on unlock. With G1-G3 this yields 'at most one holder', 'a preventer's holder sees only original code' (no write can happen without the lock) and hand-over. Schedules themselves are NOT explored: a change that replaces, skips, re-orders or shortens the locking is detected; a data race inside a hand-written lock would not be.",
         quick=["x64_api_hist_l1", "arm_api_same2", "after_panic_usable", "panic_at_p2"],
@@ -503,7 +503,7 @@ PROPERTIES = {
     ),
     "C16": dict(
         level_text="All 2^32 x 2^32 (target, fake) pairs in each of the three entry cases (A32; T32 4-byte aligned; T32 2-byte aligned) in one query per obligation: independent A32/T32 interpreters with Align(PC,4) semantics decide that the literal the load actually reads holds the fake's address and the BX operand is that register, that at most the 12 written bytes are executed/read, that the saved bytes restore the entry exactly, and which registers are written.",
-        level_note="Replays are simulated (no ARM hardware/emulator here): the real patch_arm.rs is compiled for the host. The callee-saved scratch registers r9 (A32) and r7 (Thumb) are a known finding (known_findings.json).",
+        level_note="Replays are simulated (no ARM hardware/emulator here): the real patch_arm.rs is compiled for the host. The interpreter knows LDR (literal) A1, T1 and T2 (ldr.w), BX and NOP; the encodings the repaired code emits were cross-checked once against LLVM (clang --target=armv7, llvm-objdump).",
         quick=["arm_core_a32", "arm_core_t32_aligned", "arm_core_t32_misaligned"],
         thorough=["arm_core_a32", "arm_core_t32_aligned", "arm_core_t32_misaligned", "arm_api_same2"],
         outside=["forced-boolean flavour on ARM beyond 'it is an ordinary redirect' (function addresses are 64-bit in the host model)"],
